@@ -305,9 +305,9 @@ Section Eval.
     | Ident => Ok (pop, st)
     | Pipe a b => dor o <- eval a pop st; eval b (fst o) (snd o)
     | Union_ a b => dor o1 <- eval a pop st; dor o2 <- eval b pop (snd o1); Ok (dedup_id [] (fst o1 ++ fst o2), snd o2)
-    | Inter a b =>   (* the operands after the first are evaluated first *)
+    | Inter a b =>   (* the operands after the first are evaluated first; every item once *)
         dor o2 <- eval b pop st; dor o1 <- eval a pop (snd o2);
-        Ok (filter (fun y => count_id (item_id y) (fst o2) =? 1) (fst o1), snd o1)
+        Ok (dedup_id [] (filter (fun y => memb (item_id y) (ids (fst o2))) (fst o1)), snd o1)
     | Concat a b => dor o1 <- eval a pop st; dor o2 <- eval b pop (snd o1); Ok (fst o1 ++ fst o2, snd o2)
     | Diff a b =>
         dor o2 <- eval b pop st; dor o1 <- eval a pop (snd o2);
